@@ -332,6 +332,8 @@ func (w *Worker) execOne(rc *simapi.RunConfig) {
 		r = w.runC04CLI(rc)
 	case "analyzer-sched":
 		r = w.runC04Analyzer(rc)
+	case "rulefs":
+		r = w.runC18(rc)
 	case "lib-frame":
 		r = w.runC05Frame(rc)
 	case "cli-switch-fp":
@@ -381,6 +383,8 @@ func (w *Worker) generate(prop, tier string, seed uint64, i int) (*simapi.RunCon
 		w.genC04(rc)
 	case "C05":
 		w.genC05(rc)
+	case "C18":
+		w.genC18(rc)
 	default:
 		if err := w.genOther(rc); err != nil {
 			return nil, err
